@@ -41,6 +41,7 @@ type FuncInfo struct {
 	Contract         *Contract
 	Requires         []SpecClause
 	GhostSets        []ghostSet
+	SplitConds       []splitCond
 	Assumes          []SpecClause
 	Ensures          []SpecClause
 	AssumedEns       []SpecClause
@@ -366,6 +367,12 @@ func (p *Prog) readMarkerPrefix(fi *FuncInfo, info *types.Info, list []ast.Stmt,
 				if tv, ok := info.Types[call.Args[2]]; ok && tv.Value != nil {
 					fi.SplitHi, _ = constant.Int64Val(constant.ToInt(tv.Value))
 				}
+			case "__splitcond":
+				sc := splitCond{Expr: closureExpr(call.Args[1])}
+				if tv, ok := info.Types[call.Args[0]]; ok && tv.Value != nil {
+					sc.At, _ = constant.Int64Val(constant.ToInt(tv.Value))
+				}
+				fi.SplitConds = append(fi.SplitConds, sc)
 			case "__replaytext":
 				fi.ReplayText = call.Args[0]
 			case "__flag":
@@ -435,4 +442,10 @@ func (p *Prog) relPos(n ast.Node) string {
 		rel = pos.Filename
 	}
 	return fmt.Sprintf("%s:%d", rel, pos.Line)
+}
+
+// splitCond: a condition by which the unit of one split value is divided further.
+type splitCond struct {
+	At   int64
+	Expr ast.Expr
 }
